@@ -10,6 +10,7 @@ CONSTANTS
   MCExtra = {0, 1, 2}
   MCMulti = {FALSE, TRUE}
   MCHow = {}
+  MCSteal = FALSE
   MCEniGone = FALSE
   MCEnis = {1, 2}
   BadDesign = ""
